@@ -24,6 +24,7 @@ EXPLANATION = (
     "_get_reduced_units skips already eliminated units with continue, merges by exponent/ratio and restarts; "
     "_get_dimensionality_ratio answers 1 / None / the common ratio. Does not decide value equality, the [1,1000) range "
     "or the integer programme of to_preferred.")
+EXPLANATION += ' Also decided (rules added after the second round of seeded changes): no unit-rewriting helper other than the ito* forms calls an in-place conversion primitive; the base-units memo read by to_base_units is written under its read guard with the substituted units.'
 
 
 
